@@ -126,13 +126,34 @@ Fixpoint first_diff (c : cfg) (steps : list (opx * obs)) (p : pool) (i : N) : N 
   | (o, b) :: r =>
     if b_hang b || b_panic b then i
     else let '(p', ret) := model_op c o (b_gone b) p in
-         if Bool.eqb ret (b_ret b) && (b_skip b || snap_eqb (project p') (b_snap b)) then first_diff c r p' (i + 1) else i
+         (* a finish must have driven every reorg goroutine to its end (fuel exhaustion is a difference, not a state) *)
+         let done := match o with XFinish _ => is_nil (pending p') | _ => true end in
+         if done && Bool.eqb ret (b_ret b) && (b_skip b || snap_eqb (project p') (b_snap b)) then first_diff c r p' (i + 1) else i
   end.
-Fixpoint first_bad (c : cfg) (table : list (N * tx)) (steps : list (opx * obs)) (i : N) : N :=
+(* transition clause: a newcomer that is pooled after its Add while a transaction of the same sender and nonce was pooled
+   before it pays at least that one's fee plus the configured difference, and that one is gone (state-based replacement rule) *)
+Definition repl_ok (c : cfg) (table : list (N * tx)) (prev_all : list N) (o : opx) (cur_all : list N) : bool :=
+  match o with
+  | XAdd t _ _ =>
+    if mem (tid t) cur_all && negb (mem (tid t) prev_all) then
+      forallb (fun oid => match afind oid table with
+                          | Some old => if (tsender old =? tsender t) && (tnonce old =? tnonce t) && negb (oid =? tid t)
+                                        then (tfee old + min_diff c <=? tfee t) && negb (mem oid cur_all) else true
+                          | None => true
+                          end) prev_all
+    else true
+  | _ => true
+  end.
+
+Fixpoint first_bad_from (c : cfg) (table : list (N * tx)) (prev_all : list N) (steps : list (opx * obs)) (i : N) : N :=
   match steps with
   | [] => 0
-  | (o, b) :: r => if obs_ok c table b then first_bad c table r (i + 1) else i
+  | (o, b) :: r =>
+    if obs_ok c table b && (b_skip b || repl_ok c table prev_all o (s_all (b_snap b)))
+    then first_bad_from c table (if b_skip b then prev_all else s_all (b_snap b)) r (i + 1) else i
   end.
+Definition first_bad (c : cfg) (table : list (N * tx)) (steps : list (opx * obs)) (i : N) : N :=
+  first_bad_from c table [] steps i.
 
 Definition check_seq (k : seq_case) : N :=
   let '(c, steps) := k in
